@@ -43,8 +43,10 @@ type bcScenario struct {
 
 type bcClient struct {
 	c        *sched.Client
+	idx      int    // client index (0-based): process idx+1 of the X spec
 	cur      string // op in flight ("" if none)
 	waitID   int    // id of the wait/raw call in flight, 0 if none
+	waitXID  int    // the X spec's id of that call: (idx+1)*100 + (op index+1)  (X-level trace validation)
 	canCanc  bool
 	canc     bool
 	cancel   context.CancelFunc
@@ -166,7 +168,7 @@ func (d *bcDriver) csIn(actor string) int {
 func (d *bcDriver) csOut(cs int) { d.x.Log(trace.E{"ev": "csout", "cs": cs}) }
 
 // pred evaluates the predicate of a wait op on the guarded counter (inside a critical section).
-func (d *bcDriver) pred(id int, op bcOp, perr error) (bool, error, string) {
+func (d *bcDriver) pred(id, xid int, op bcOp, perr error) (bool, error, string) {
 	d.mu.Lock()
 	n := d.n
 	d.mu.Unlock()
@@ -180,7 +182,7 @@ func (d *bcDriver) pred(id int, op bcOp, perr error) (bool, error, string) {
 	case n >= op.K:
 		res, done = "t", true
 	}
-	d.x.Log(trace.E{"ev": "pred", "id": id, "n": n, "res": res})
+	d.x.Log(trace.E{"ev": "pred", "id": id, "xid": xid, "n": n, "res": res})
 	return done, err, res
 }
 
@@ -191,7 +193,7 @@ func (d *bcDriver) newID() int {
 	return d.nextID
 }
 
-func (d *bcDriver) opFunc(c *bcClient, op bcOp) sched.Op {
+func (d *bcDriver) opFunc(c *bcClient, pi int, op bcOp) sched.Op {
 	x := d.x
 	name := c.c.Name
 	label := "call:" + name
@@ -248,17 +250,18 @@ func (d *bcDriver) opFunc(c *bcClient, op bcOp) sched.Op {
 	case "wait", "raw":
 		return sched.Op{Label: label, Do: func() {
 			id := d.newID()
+			xid := (c.idx+1)*100 + pi + 1
 			ctx, cancel := context.WithCancel(context.Background())
 			defer cancel()
 			c.cancel, c.canc, c.canCanc = cancel, false, op.C
 			perr := errors.New("predicate error")
-			x.Log(trace.E{"ev": "wcall", "id": id, "op": op.Op, "k": op.K, "e": op.E, "actor": name})
-			c.cur, c.waitID = op.Op, id
+			x.Log(trace.E{"ev": "wcall", "id": id, "xid": xid, "op": op.Op, "k": op.K, "e": op.E, "actor": name})
+			c.cur, c.waitID, c.waitXID = op.Op, id, xid
 			var err error
 			if op.Op == "wait" {
 				err = d.bc.Wait(ctx, func(bcast func(), getWaitCh func() <-chan struct{}) (bool, error) {
 					cs := d.csIn(name)
-					done, e, _ := d.pred(id, op, perr)
+					done, e, _ := d.pred(id, xid, op, perr)
 					if op.G && !done && e == nil {
 						d.keep(cs, getWaitCh())
 					}
@@ -266,9 +269,9 @@ func (d *bcDriver) opFunc(c *bcClient, op bcOp) sched.Op {
 					return done, e
 				})
 			} else {
-				err = d.rawWait(ctx, name, id, op, perr)
+				err = d.rawWait(ctx, name, id, xid, op, perr)
 			}
-			c.cur, c.waitID = "", 0
+			c.cur, c.waitID, c.waitXID = "", 0, 0
 			res := ""
 			switch {
 			case err == nil:
@@ -280,7 +283,7 @@ func (d *bcDriver) opFunc(c *bcClient, op bcOp) sched.Op {
 			default:
 				res = "other:" + err.Error()
 			}
-			x.Log(trace.E{"ev": "wret", "id": id, "res": res, "actor": name})
+			x.Log(trace.E{"ev": "wret", "id": id, "xid": xid, "res": res, "actor": name})
 		}}
 	}
 	panic("bad op " + op.Op)
@@ -289,7 +292,7 @@ func (d *bcDriver) opFunc(c *bcClient, op bcOp) sched.Op {
 // rawWait is the sample-then-block pattern every other package of the library builds on
 // HoldLock: sample the guarded state and obtain the wait channel in one critical section, then
 // block on the channel. The channel is also kept as a probed handle.
-func (d *bcDriver) rawWait(ctx context.Context, name string, id int, op bcOp, perr error) error {
+func (d *bcDriver) rawWait(ctx context.Context, name string, id, xid int, op bcOp, perr error) error {
 	for {
 		if ctx.Err() != nil {
 			return context.Canceled
@@ -299,7 +302,7 @@ func (d *bcDriver) rawWait(ctx context.Context, name string, id int, op bcOp, pe
 		var wch <-chan struct{}
 		d.bc.HoldLock(func(bcast func(), getWaitCh func() <-chan struct{}) {
 			cs := d.csIn(name)
-			done, err, _ = d.pred(id, op, perr)
+			done, err, _ = d.pred(id, xid, op, perr)
 			if !done && err == nil {
 				wch = getWaitCh()
 				d.keep(cs, wch)
@@ -322,6 +325,18 @@ func (d *bcDriver) blockedIDs() []int {
 	for _, c := range d.cl {
 		if c.waitID != 0 && d.x.Blocked(c.c) {
 			out = append(out, c.waitID)
+		}
+	}
+	sort.Ints(out)
+	return out
+}
+
+// blockedXIDs is blockedIDs in the X spec's ids.
+func (d *bcDriver) blockedXIDs() []int {
+	out := []int{}
+	for _, c := range d.cl {
+		if c.waitID != 0 && d.x.Blocked(c.c) {
+			out = append(out, c.waitXID)
 		}
 	}
 	sort.Ints(out)
@@ -376,9 +391,9 @@ func (d *bcDriver) Run(x *sched.Exec, raw json.RawMessage) json.RawMessage {
 	}
 	out, _ := json.Marshal(sc)
 	for i, prog := range sc.Clients {
-		c := &bcClient{c: x.NewClient(fmt.Sprintf("c%d", i+1))}
-		for _, op := range prog {
-			c.c.Prog = append(c.c.Prog, d.opFunc(c, op))
+		c := &bcClient{c: x.NewClient(fmt.Sprintf("c%d", i+1)), idx: i}
+		for pi, op := range prog {
+			c.c.Prog = append(c.c.Prog, d.opFunc(c, pi, op))
 		}
 		d.cl = append(d.cl, c)
 	}
@@ -417,7 +432,7 @@ func (d *bcDriver) Run(x *sched.Exec, raw json.RawMessage) json.RawMessage {
 			if calls && c.waitID != 0 && c.canCanc && !c.canc {
 				ms = append(ms, sched.Move{Label: "cancel:" + c.c.Name, Do: func() {
 					c.canc = true
-					x.Log(trace.E{"ev": "cancel", "id": c.waitID})
+					x.Log(trace.E{"ev": "cancel", "id": c.waitID, "xid": c.waitXID})
 					c.cancel()
 				}})
 			}
@@ -447,12 +462,16 @@ func (d *bcDriver) Run(x *sched.Exec, raw json.RawMessage) json.RawMessage {
 		d.probes(false)
 		// library-quiescent (nothing parked at a hook): report who is blocked, once per change
 		if len(x.ParkedActors()) == 0 && x.T.Events() != d.lastObs {
-			x.Log(trace.E{"ev": "quiet", "blk": d.blockedIDs()})
+			x.Log(trace.E{"ev": "quiet", "blk": d.blockedIDs(), "xblk": d.blockedXIDs()})
 		}
 		d.lastObs = x.T.Events()
 	}
 	x.Loop(moves, observe, 90)
 
+	if x.LogSteps {
+		// X-level trace validation ends here: the cancellations of the teardown are not controller steps
+		x.Log(trace.E{"ev": "teardown"})
+	}
 	// teardown, still one critical section per step: no new calls; leave long critical
 	// sections, cancel every wait in flight, grant until nothing is parked
 	for _, c := range d.cl {
@@ -463,7 +482,7 @@ func (d *bcDriver) Run(x *sched.Exec, raw json.RawMessage) json.RawMessage {
 		for _, c := range d.cl {
 			if c.waitID != 0 && !c.canc {
 				c.canc = true
-				x.Log(trace.E{"ev": "cancel", "id": c.waitID})
+				x.Log(trace.E{"ev": "cancel", "id": c.waitID, "xid": c.waitXID})
 				c.cancel()
 			}
 		}
